@@ -13,6 +13,7 @@ import (
 	"os"
 	"path/filepath"
 	"strings"
+	"sync"
 )
 
 // Engine describes one correspondence engine.
@@ -23,6 +24,8 @@ type Engine struct {
 	CaseType, Agree, PropOk string
 	// Extra: further named verdict functions printed as kv_<name> (indices where the function is false)
 	Extra map[string]string
+	// Parallel > 1: cases are independent and slow (timers): run that many at once
+	Parallel int
 	// Gen produces the i-th case (JSON-serialisable input) from the PRNG
 	Gen func(r *rand.Rand, i int, thorough bool) interface{}
 	// New returns an empty input value to unmarshal a replayed case into
@@ -135,14 +138,40 @@ func runEngine(name string, e *Engine, seed int64, n int, out, replay, corpus st
 	jf, _ := os.Create(filepath.Join(out, "cases.jsonl"))
 	jw := bufio.NewWriter(jf)
 	stats := map[string]int{"corpus_cases": ncorpus}
-	var terms []string
+	terms := make([]string, len(inputs))
+	type result struct {
+		term string
+		obs  interface{}
+		st   map[string]int
+	}
+	results := make([]result, len(inputs))
+	par := e.Parallel
+	if par < 1 {
+		par = 1
+	}
+	sem := make(chan struct{}, par)
+	var wg sync.WaitGroup
 	for i := range inputs {
 		in := e.New()
 		if err := json.Unmarshal(inputs[i].Input, in); err != nil {
 			fmt.Fprintln(os.Stderr, "bad case input:", err)
 			return 2
 		}
-		term, obs, st := e.Run(in)
+		wg.Add(1)
+		sem <- struct{}{}
+		go func(i int, in interface{}) {
+			defer wg.Done()
+			defer func() { <-sem }()
+			t, o, st := e.Run(in)
+			results[i] = result{t, o, st}
+		}(i, in)
+		if par == 1 {
+			wg.Wait()
+		}
+	}
+	wg.Wait()
+	for i := range inputs {
+		term, obs, st := results[i].term, results[i].obs, results[i].st
 		for k, v := range st {
 			stats[k] += v
 		}
@@ -152,7 +181,7 @@ func runEngine(name string, e *Engine, seed int64, n int, out, replay, corpus st
 		b, _ := json.Marshal(inputs[i])
 		jw.Write(b)
 		jw.WriteByte('\n')
-		terms = append(terms, term)
+		terms[i] = term
 	}
 	jw.Flush()
 	jf.Close()
